@@ -60,7 +60,8 @@ CHECKS = {
             "every interleaving of the workers' real message streams (plus spurious timeouts / late termination observations up to a "
             "deviation bound, both pickling extremes of the statistics array) is replayed against the real MultiprocessingSolver; "
             "conformance: a slice of the cases also runs with real processes, the real per-worker streams must equal the model's and the "
-            "real arrival order replayed through the scheduler must reproduce the real result and statistics",
+            "real arrival order replayed through the scheduler must reproduce the real result and statistics; the expected totals are the sums "
+            "of the workers' true final statistics (read from the worker's solver after its target returned), not of what the markers carry",
             BASE_TRUST + "; workers are deterministic and share nothing but the queue (checked), per-producer FIFO", "3 C11, 2.6", "SchedMC"),
     "C12": (MC, "exhaustive enumeration of Problem.split over domains x k x layouts; partition laws + find_all of every part",
             "all [a,b] x k x variable position / sharing layouts (incl. layouts where variable i does not use shared domain i) up to the bound; deep comparison of original and parts; the "
@@ -85,12 +86,13 @@ EXP = "exploration"
 CHECKS["C13"] = (EXP, "exhaustive enumeration of a finite (model, meaning-preserving rewrite, configuration) grid; differential runs of the real solver (RewriteMC)",
                  "models of U (every sharing layout) and shipped models converted from the real Problem objects x de-sharing, all "
                  "constraint / variable permutations (<= 4), duplication, always-true constraints, translation, the add_variable / "
-                 "add_variables spellings: solution sets and "
+                 "add_variables spellings, one more variable added through add_variable(s) to a constructor-built model with views: solution sets and "
                  "optima of the two writings are compared; exploration level because the grid of models is a chosen finite set",
                  BASE_TRUST, "3 C13", "RewriteMC")
-CHECKS["C15"] = (MC, "exhaustive enumeration of histories of solver use (words over 7 operations up to a length, each in a child forked from a pristine "
+CHECKS["C15"] = (MC, "exhaustive enumeration of histories of solver use (words over 9 operations up to a length, each in a child forked from a pristine "
                      "process) + differential JIT/interpreted runs of a universe slice in fresh processes, forward and reverse order",
-                 "every history up to the bound is followed by a fixed probe whose observable outcome must equal the pristine one, in both "
+                 "every history up to the bound (solving other problems, abandoning enumerations, reusing a Problem, registrations, problems declared from shared "
+                 "list objects, same-named user propagators) is followed by a fixed probe whose observable outcome must equal the pristine one, in both "
                  "modes; every case of the slice must give identical solution sequences and statistics compiled vs interpreted, twice in "
                  "one process, and whatever was solved before it", BASE_TRUST + "; compiled runs use a private numba cache keyed by the source hash",
                  "3 C15", "ModeMC+HistoryMC")
